@@ -34,13 +34,25 @@
   trip (`DistinctRT cfg`) — exactly what fails on the models of known finding F16f.  Hypotheses kept
   for the configurator rules: items among the alternatives never take negative values
   (`ItemsNonneg`), and at most one item carries the first default's id (`OneDefault`).
-  PARTIAL: default priorities and the polyhedron after the round trip are covered by the
-  correspondence (toJson / toAst + build against the real code) and the oracle only.
+  * `items_configurator_exact` — the everyday configurator, `StingyConfigurator` over defaulted
+    `cc.Xor` / `cc.Any` rules whose alternatives are items (ids pairwise distinct), is read back as
+    the VERY SAME model (`a.build = model`): same default priorities (`Lex.defaultPrios`), same
+    polyhedron (`P.encode`), same columns, same JSON.  On `ccAny_items_exact`, `ccXor_items_exact`
+    (the constructors depend on their alternatives only as a set: `mkCcAny_congr`, `mkCcXor_congr`,
+    from C18's `sorted_unique`) and `stingy_exact` (a configurator whose rules come back as themselves).
+    Hypothesis besides distinct ids: the generated id of a cc.Any helper is no item's id.
+  PARTIAL: for configurators with other rules, default priorities and the polyhedron after the
+  round trip are covered by the correspondence (toJson / toAst + build against the real code) and
+  the oracle only.
 -/
 import Puan.Model.Json
 import Puan.Lemmas.Build
 import Puan.Props.C04
 import Puan.Props.C14
+import Puan.Props.C18
+import Puan.Props.C10
+import Puan.Model.Encode
+import Puan.Model.Solve
 namespace Puan.C16
 open Puan P
 
@@ -950,8 +962,9 @@ theorem ccAny_roundtrip_gen (args : List (Bool × P)) (d : String × Bnd) (ds : 
     (hone : OneDefault args d.1)
     (hR : ∀ k ∈ args.map (·.2), RTN true k) :
     ∃ a, PJ.toAst true (toJson (mkCcAny args (d :: ds) oid)) = some a ∧ a.build.mt.dflt = d :: ds ∧
-      ∀ σ, GoodL σ (args.map (·.2)) → (∀ k ∈ args.map (·.2), 0 ≤ evalPt σ k) →
-        evalPt σ a.build = evalPt σ (mkCcAny args (d :: ds) oid) ∧ Good σ a.build := by
+      (∀ σ, GoodL σ (args.map (·.2)) → (∀ k ∈ args.map (·.2), 0 ≤ evalPt σ k) →
+        evalPt σ a.build = evalPt σ (mkCcAny args (d :: ds) oid) ∧ Good σ a.build) ∧
+      ∃ as X, a = .ccAny as (d :: ds) oid ∧ X.Perm (args.map (·.2)) ∧ PJ.toAstL true (toJsonL X) = some as := by
   obtain ⟨d1, d2⟩ := d
   have hsub : ∀ f : Bool × P → Bool, ∀ k ∈ sortById (orderArgs (args.filter f)), k ∈ args.map (·.2) := fun f k hk => by
     have h1 := (C04.orderArgs_perm _).mem_iff.1 ((sortById_perm _).mem_iff.1 hk)
@@ -962,20 +975,21 @@ theorem ccAny_roundtrip_gen (args : List (Bool × P)) (d : String × Bnd) (ds : 
   -- the plain form: all alternatives directly below the node
   have plain : setDflt (mkAny args oid .ccAny) ((d1, d2) :: ds) = mkCcAny args ((d1, d2) :: ds) oid →
       ∃ a, PJ.toAst true (toJson (mkCcAny args ((d1, d2) :: ds) oid)) = some a ∧ a.build.mt.dflt = (d1, d2) :: ds ∧
-        ∀ σ, GoodL σ (args.map (·.2)) → (∀ k ∈ args.map (·.2), 0 ≤ evalPt σ k) →
-          evalPt σ a.build = evalPt σ (mkCcAny args ((d1, d2) :: ds) oid) ∧ Good σ a.build := by
+        (∀ σ, GoodL σ (args.map (·.2)) → (∀ k ∈ args.map (·.2), 0 ≤ evalPt σ k) →
+          evalPt σ a.build = evalPt σ (mkCcAny args ((d1, d2) :: ds) oid) ∧ Good σ a.build) ∧
+        ∃ as X, a = .ccAny as ((d1, d2) :: ds) oid ∧ X.Perm (args.map (·.2)) ∧ PJ.toAstL true (toJsonL X) = some as := by
     intro he
     obtain ⟨as, has, hA⟩ := rebuilt_facts (cfg := true) (sortById (orderArgs args)) (fun k hk => hR k (hK k hk))
-    have hj : ∃ jid, toJson (mkCcAny args ((d1, d2) :: ds) oid) =
-        .node (some "Any") jid none none true (toJsonL (sortById (orderArgs args))) none none none ((d1, d2) :: ds) := by
+    have hj : toJson (mkCcAny args ((d1, d2) :: ds) oid) =
+        .node (some "Any") oid none none true (toJsonL (sortById (orderArgs args))) none none none ((d1, d2) :: ds) := by
       rw [← he]
       have hut := untagged_any (sortById (orderArgs args)) (fun k hk => hun k (hK k hk))
       unfold mkAny mkAtLeast
-      cases varOf oid with
-      | none => exact ⟨_, by simp [setDflt, toJson, hut]; rfl⟩
-      | some x => exact ⟨_, by simp [setDflt, toJson, hut]; rfl⟩
-    obtain ⟨jid, hj⟩ := hj
-    refine ⟨.ccAny as ((d1, d2) :: ds) jid, ?_, ?_, ?_⟩
+      cases oid with
+      | none => simp [varOf, setDflt, toJson, hut, idJ]
+      | some x => simp [varOf, setDflt, toJson, hut, idJ]
+    refine ⟨.ccAny as ((d1, d2) :: ds) oid, ?_, ?_, ?_,
+      ⟨as, sortById (orderArgs args), rfl, (sortById_perm _).trans (C04.orderArgs_perm args), has⟩⟩
     · rw [hj]; simp [PJ.toAst, has]
     · simp only [Ast.build]; exact dflt_mkCcAny _ _ _
     · intro σ hg hnn
@@ -1018,8 +1032,8 @@ theorem ccAny_roundtrip_gen (args : List (Bool × P)) (d : String × Bnd) (ds : 
       have hxp : xp.isLeaf = true := hxleaf
       generalize hcm : args.filter (fun x => !(x.2.isLeaf && x.2.id == d1)) = compl at *
       obtain ⟨as', has', hA'⟩ := rebuilt_facts (cfg := true) (sortById (orderArgs compl)) (fun k hk => hR k (hC k hk))
-      have hj : ∃ jid, toJson (mkCcAny args ((d1, d2) :: ds) oid) =
-          .node (some "Any") jid none none true (leafJ xp.id xp.bnd :: toJsonL (sortById (orderArgs compl))) none none none ((d1, d2) :: ds) := by
+      have hj : toJson (mkCcAny args ((d1, d2) :: ds) oid) =
+          .node (some "Any") oid none none true (leafJ xp.id xp.bnd :: toJsonL (sortById (orderArgs compl))) none none none ((d1, d2) :: ds) := by
         rw [hform, hinner]
         have ho : ∃ l, (l = [xp, P.node (genId (sortById (orderArgs compl)) 1 none) ⟨0, 1⟩ 1 1 (sortById (orderArgs compl)) { cls := .any, gen := true, prio := some (-2) }] ∨
             l = [P.node (genId (sortById (orderArgs compl)) 1 none) ⟨0, 1⟩ 1 1 (sortById (orderArgs compl)) { cls := .any, gen := true, prio := some (-2) }, xp]) ∧
@@ -1035,10 +1049,21 @@ theorem ccAny_roundtrip_gen (args : List (Bool × P)) (d : String × Bnd) (ds : 
           unfold mkAny mkAtLeast
           rw [hle]
           rcases hl with rfl | rfl
-          · cases varOf oid <;> exact ⟨_, by simp [setDflt, toJson, ccAnyProps, P.mt, toJsonL, P.id, P.bnd]; rfl⟩
-          · cases varOf oid <;> exact ⟨_, by simp [setDflt, toJson, ccAnyProps, P.mt, toJsonL, P.id, P.bnd]; rfl⟩
-      obtain ⟨jid, hj⟩ := hj
-      refine ⟨.ccAny (varAst xp :: as') ((d1, d2) :: ds) jid, ?_, ?_, ?_⟩
+          · cases oid <;> simp [varOf, setDflt, toJson, ccAnyProps, P.mt, toJsonL, P.id, P.bnd, idJ]
+          · cases oid <;> simp [varOf, setDflt, toJson, ccAnyProps, P.mt, toJsonL, P.id, P.bnd, idJ]
+      have hXperm : (xp :: sortById (orderArgs compl)).Perm (args.map (·.2)) := by
+        have h1 : (sortById (orderArgs compl)).Perm (compl.map (·.2)) := (sortById_perm _).trans (C04.orderArgs_perm compl)
+        have h2 := C14.filter_perm_split (fun x : Bool × P => x.2.isLeaf && x.2.id == d1) args
+        rw [hdx, hcm] at h2
+        exact ((List.Perm.cons xp h1).trans (by simpa using h2))
+      refine ⟨.ccAny (varAst xp :: as') ((d1, d2) :: ds) oid, ?_, ?_, ?_,
+        ⟨varAst xp :: as', xp :: sortById (orderArgs compl), rfl, hXperm, ?_⟩⟩
+      rotate_left 3
+      · have hlx : PJ.toAst true (toJson xp) = some (varAst xp) := by
+          cases xp with
+          | node => simp [isLeaf] at hxp
+          | leaf xi xb => simpa [toJson, varAst, P.id, P.bnd] using leaf_roundtrip_cfg true xi xb
+        simp [toJsonL, PJ.toAstL, hlx, has']
       · rw [hj]
         have hlx : PJ.toAst true (leafJ xp.id xp.bnd) = some (varAst xp) := by
           cases xp with
@@ -1075,13 +1100,21 @@ theorem ccAny_roundtrip_gen (args : List (Bool × P)) (d : String × Bnd) (ds : 
           · exact hxg
           · exact (GoodL_iff σ _).1 e2 k hk
 
+theorem mkXor_idJ (args : List (Bool × P)) (oid cls) : ∀ i b s v ks m, mkXor args oid cls = .node i b s v ks m → idJ i m = oid := by
+  intro i b s v ks m h
+  unfold mkXor mkAll mkAtLeast at h
+  cases oid with
+  | none => simp only [varOf, Option.map_none] at h; cases h; simp [idJ]
+  | some x => simp only [varOf, Option.map_some] at h; cases h; simp [idJ]
+
 /-- **a defaulted `cc.Xor` over alternatives of any kind** (each reads back): read back by the configurator's class map as
     a `cc.Xor` with the same default that evaluates identically wherever the alternatives' values are not negative -/
 theorem ccXor_roundtrip_gen (args : List (Bool × P)) (d : String × Bnd) (ds : List (String × Bnd)) (oid)
     (hR : ∀ k ∈ args.map (·.2), RTN true k) :
     ∃ a, PJ.toAst true (toJson (mkCcXor args (d :: ds) oid)) = some a ∧ a.build.mt.dflt = d :: ds ∧
-      ∀ σ, GoodL σ (args.map (·.2)) → (∀ k ∈ args.map (·.2), 0 ≤ evalPt σ k) →
-        evalPt σ a.build = evalPt σ (mkCcXor args (d :: ds) oid) ∧ Good σ a.build := by
+      (∀ σ, GoodL σ (args.map (·.2)) → (∀ k ∈ args.map (·.2), 0 ≤ evalPt σ k) →
+        evalPt σ a.build = evalPt σ (mkCcXor args (d :: ds) oid) ∧ Good σ a.build) ∧
+      ∃ as, a = .ccXor as (d :: ds) oid ∧ PJ.toAstL true (toJsonL (sortById (orderArgs args))) = some as := by
   have hK : ∀ k ∈ sortById (orderArgs args), k ∈ args.map (·.2) := fun k hk =>
     (C04.orderArgs_perm args).mem_iff.1 ((sortById_perm _).mem_iff.1 hk)
   obtain ⟨as, has, hA⟩ := rebuilt_facts (cfg := true) (sortById (orderArgs args)) (fun k hk => hR k (hK k hk))
@@ -1112,7 +1145,11 @@ theorem ccXor_roundtrip_gen (args : List (Bool × P)) (d : String × Bnd) (ds : 
       simp [toJson, hcls, kidsOfAtMost, hcc]
     · rw [h, hLe, hMe]
       simp [replaceFirst, isLeaf, toJson, hcls, kidsOfAtMost]
-  refine ⟨.ccXor as (d :: ds) (idJ i { m with dflt := d :: ds }), ?_, ?_, ?_⟩
+  have hid : idJ i { m with dflt := d :: ds } = oid := by
+    have := mkXor_idJ args oid .ccXor _ _ _ _ _ _ hx
+    simpa [idJ] using this
+  rw [hid] at hjson
+  refine ⟨.ccXor as (d :: ds) oid, ?_, ?_, ?_, ⟨as, rfl, has⟩⟩
   · rw [hjson]; simp [PJ.toAst, has]
   · simp only [Ast.build]; exact dflt_mkCcXor _ _ _
   · intro σ hg hnn
@@ -1292,7 +1329,7 @@ theorem rtn_ccAny (t : P) (h : CcAnyRule t) (hk : ∀ k ∈ t.kids, RTN true k)
     rcases mkCcAny_args_in_kids args (d :: ds) oid x hx with h | ⟨H, hH, h⟩
     · exact hk x h
     · exact hkk H hH x h
-  obtain ⟨a, ha, _, hev⟩ := ccAny_roundtrip_gen args d ds oid (fun k hk => (hit k hk).1) hone hR
+  obtain ⟨a, ha, _, hev, _⟩ := ccAny_roundtrip_gen args d ds oid (fun k hk => (hit k hk).1) hone hR
   refine ⟨a, ha, fun σ hg => ?_⟩
   have hgl := good_mkCcAny_inv σ args _ oid hg
   exact hev σ hgl (fun k hk => alt_nonneg σ k (hit k hk).2 ((GoodL_iff σ _).1 hgl k hk))
@@ -1302,7 +1339,7 @@ theorem rtn_ccXor (t : P) (h : CcXorRule t) (hkk : ∀ k ∈ t.kids, ∀ k' ∈ 
   have hR : ∀ x ∈ args.map (·.2), RTN true x := fun x hx => by
     obtain ⟨M, hM, h⟩ := mkCcXor_args_in_kids args d ds oid x hx
     exact hkk M hM x h
-  obtain ⟨a, ha, _, hev⟩ := ccXor_roundtrip_gen args d ds oid hR
+  obtain ⟨a, ha, _, hev, _⟩ := ccXor_roundtrip_gen args d ds oid hR
   refine ⟨a, ha, fun σ hg => ?_⟩
   have hgl := good_mkCcXor_inv σ args _ _ oid hg
   exact hev σ hgl (fun k hk => alt_nonneg σ k (hit k hk).2 ((GoodL_iff σ _).1 hgl k hk))
@@ -2379,6 +2416,234 @@ example : RTExpr true (.stingy [.imply (.any [.str "a", .str "b"] (some "C"))
     simp only [Ast.build, Ast.isStr, List.map_cons, List.map_nil, List.mem_cons, List.not_mem_nil, or_false] at hk
     rcases hk with rfl | rfl <;> simp [isLeaf, P.bnd, P.mt]
   · exact ⟨("x", ⟨0, 1⟩), [], rfl, by simp [OneDefault, Ast.build, Ast.isStr, isLeaf, P.id, List.filter_cons]⟩
+
+/-! ## Exact round trip of choices over items, and of configurators made of them
+
+For the everyday configurator — `StingyConfigurator` over defaulted `cc.Xor` / `cc.Any` rules whose alternatives are items
+— `from_json(to_json(m))` builds the very same model (ids pairwise distinct; the generated id of a helper is not the id of
+an item — a digest against a user-chosen name, a hypothesis like the two of `RTExpr`).  Everything else the statement asks
+for then holds because it is a function of the model: default priorities, the polyhedron, every query. -/
+
+theorem mkAtLeast_congr (v : Int) (ks ks' : List P) (var sgn cls) (h : sortById ks = sortById ks') :
+    mkAtLeast v ks var sgn cls = mkAtLeast v ks' var sgn cls := by
+  simp only [mkAtLeast, h]
+
+theorem sort_args_congr (A A' : List (Bool × P)) (hp : (A'.map (·.2)).Perm (A.map (·.2)))
+    (hn : ((A.map (·.2)).map (·.id)).Nodup) : sortById (orderArgs A') = sortById (orderArgs A) :=
+  C18.sorted_unique _ _ (((C04.orderArgs_perm A').trans hp).trans (C04.orderArgs_perm A).symm)
+    ((((C04.orderArgs_perm A').trans hp).map _).nodup_iff.2 hn)
+
+theorem mkAny_congr (A A' : List (Bool × P)) (oid cls) (hp : (A'.map (·.2)).Perm (A.map (·.2)))
+    (hn : ((A.map (·.2)).map (·.id)).Nodup) : mkAny A' oid cls = mkAny A oid cls := by
+  unfold mkAny; exact mkAtLeast_congr _ _ _ _ _ _ (sort_args_congr A A' hp hn)
+
+theorem mkXor_congr (A A' : List (Bool × P)) (oid cls) (hp : (A'.map (·.2)).Perm (A.map (·.2)))
+    (hn : ((A.map (·.2)).map (·.id)).Nodup) : mkXor A' oid cls = mkXor A oid cls := by
+  have h := sort_args_congr A A' hp hn
+  unfold mkXor mkAtMost
+  rw [mkAtLeast_congr 1 _ _ none none .atLeast h, mkAtLeast_congr (-1) _ _ none (some (-1)) .atMost h]
+
+theorem filter_snd (g : P → Bool) : ∀ l : List (Bool × P), (l.filter (fun x => g x.2)).map (·.2) = (l.map (·.2)).filter g
+  | [] => rfl
+  | x :: l => by
+      have ih := filter_snd g l
+      cases hg : g x.2 <;> simp [List.filter_cons, hg, ih]
+
+theorem filter_perm_snd (g : P → Bool) {A A' : List (Bool × P)} (hp : (A'.map (·.2)).Perm (A.map (·.2))) :
+    ((A'.filter (fun x => g x.2)).map (·.2)).Perm ((A.filter (fun x => g x.2)).map (·.2)) := by
+  rw [filter_snd, filter_snd]; exact hp.filter g
+
+theorem nodup_filter_ids (g : P → Bool) (A : List (Bool × P)) (hn : ((A.map (·.2)).map (·.id)).Nodup) :
+    (((A.filter (fun x => g x.2)).map (·.2)).map (·.id)).Nodup := by
+  rw [filter_snd]
+  exact (List.Sublist.map _ List.filter_sublist).nodup hn
+
+theorem id_setPrio (p : P) (q) : (setPrio p q).id = p.id := by cases p <;> rfl
+
+/-- `cc.Any` depends on its alternatives only as a set (ids pairwise distinct; the helper's generated id is no item's id) -/
+theorem mkCcAny_congr (A A' : List (Bool × P)) (dflt oid)
+    (hp : (A'.map (·.2)).Perm (A.map (·.2))) (hn : ((A.map (·.2)).map (·.id)).Nodup)
+    (hfresh : ∀ d1, ∀ k ∈ A.map (·.2), k.id ≠ (mkAny (A.filter (fun x => !(x.2.isLeaf && x.2.id == d1))) none).id) :
+    mkCcAny A' dflt oid = mkCcAny A dflt oid := by
+  have hlen : A'.length = A.length := by simpa using hp.length_eq
+  unfold mkCcAny
+  cases dflt with
+  | nil => simp only; rw [mkAny_congr A A' oid _ hp hn]
+  | cons d ds =>
+      obtain ⟨d1, d2⟩ := d
+      have hcp := filter_perm_snd (fun k => !(k.isLeaf && k.id == d1)) hp
+      have hdp := filter_perm_snd (fun k => k.isLeaf && k.id == d1) hp
+      have hcl : (A'.filter (fun x => !(x.2.isLeaf && x.2.id == d1))).length =
+          (A.filter (fun x => !(x.2.isLeaf && x.2.id == d1))).length := by simpa using hcp.length_eq
+      simp only [hlen, hcl]
+      by_cases h1 : A.length ≤ 1
+      · simp only [h1, if_true]; rw [mkAny_congr A A' oid _ hp hn]
+      · simp only [h1, if_false]
+        by_cases h2 : ((A.filter (fun x => !(x.2.isLeaf && x.2.id == d1))).length == A.length ||
+            (A.filter (fun x => !(x.2.isLeaf && x.2.id == d1))).length == 0) = true
+        · rw [if_pos h2, if_pos h2, mkAny_congr A A' oid _ hp hn]
+        · rw [if_neg h2, if_neg h2]
+          have hin : mkAny (A'.filter (fun x => !(x.2.isLeaf && x.2.id == d1))) none =
+              mkAny (A.filter (fun x => !(x.2.isLeaf && x.2.id == d1))) none :=
+            mkAny_congr _ _ none _ hcp (nodup_filter_ids (fun k => !(k.isLeaf && k.id == d1)) A hn)
+          rw [hin]
+          refine congrArg (fun p => setDflt p ((d1, d2) :: ds)) (mkAny_congr _ _ oid _ ?_ ?_)
+          · simp only [List.map_append]; exact hdp.append_right _
+          · simp only [List.map_append, List.map_cons, List.map_nil]
+            refine List.nodup_append.2 ⟨nodup_filter_ids (fun k => k.isLeaf && k.id == d1) A hn, by simp, ?_⟩
+            intro a ha b hb
+            simp only [List.mem_singleton] at hb
+            subst hb
+            obtain ⟨k, hk, rfl⟩ := List.mem_map.1 ha
+            obtain ⟨x, hx, rfl⟩ := List.mem_map.1 hk
+            rw [id_setPrio]
+            exact hfresh d1 x.2 (List.mem_map.2 ⟨x, (List.mem_filter.1 hx).1, rfl⟩)
+
+theorem mkCcXor_congr (A A' : List (Bool × P)) (dflt oid)
+    (hp : (A'.map (·.2)).Perm (A.map (·.2))) (hn : ((A.map (·.2)).map (·.id)).Nodup) :
+    mkCcXor A' dflt oid = mkCcXor A dflt oid := by
+  unfold mkCcXor; rw [mkXor_congr A A' oid _ hp hn]
+
+theorem nodup_const_le_one {α β} (f : α → β) (c : β) : ∀ l : List α, (l.map f).Nodup → (∀ x ∈ l, f x = c) → l.length ≤ 1
+  | [], _, _ => by simp
+  | [_], _, _ => by simp
+  | x :: y :: r, hn, hc => by
+      have h1 := hc x (by simp)
+      have h2 := hc y (by simp)
+      simp only [List.map_cons, List.nodup_cons, List.mem_cons, not_or] at hn
+      exact absurd (h1.trans h2.symm) hn.1.1
+
+theorem oneDefault_of_nodup (A : List (Bool × P)) (d : String) (hn : ((A.map (·.2)).map (·.id)).Nodup) : OneDefault A d := by
+  unfold OneDefault
+  have h1 := nodup_filter_ids (fun k => k.isLeaf && k.id == d) A hn
+  rw [List.map_map] at h1
+  refine nodup_const_le_one _ d _ h1 (fun x hx => ?_)
+  have := (List.mem_filter.1 hx).2
+  simp only [Bool.and_eq_true, beq_iff_eq] at this
+  exact this.2
+
+theorem leaf_untagged : ∀ k : P, k.isLeaf = true → k.mt.prio = none
+  | .leaf .., _ => rfl
+  | .node .., h => by simp [isLeaf] at h
+
+theorem rtn_leaf (k : P) (h : k.isLeaf = true) : RTN true k := (fragN_rt k (fragN_leaflike k h)).1
+
+/-- **exact round trip of a defaulted `cc.Any` over items**: `from_json(to_json(rule))` builds the very same rule -/
+theorem ccAny_items_exact (args : List (Bool × P)) (d : String × Bnd) (ds : List (String × Bnd)) (oid)
+    (hleaf : ∀ k ∈ args.map (·.2), k.isLeaf = true) (hn : ((args.map (·.2)).map (·.id)).Nodup)
+    (hfresh : ∀ d1, ∀ k ∈ args.map (·.2), k.id ≠ (mkAny (args.filter (fun x => !(x.2.isLeaf && x.2.id == d1))) none).id) :
+    ∃ a, PJ.toAst true (toJson (mkCcAny args (d :: ds) oid)) = some a ∧ a.build = mkCcAny args (d :: ds) oid ∧
+      a.isStr = false := by
+  obtain ⟨a, ha, _, _, as, X, rfl, hX, has⟩ := ccAny_roundtrip_gen args d ds oid
+    (fun k hk => leaf_untagged k (hleaf k hk)) (oneDefault_of_nodup args d.1 hn) (fun k hk => rtn_leaf k (hleaf k hk))
+  have hXl : ∀ k ∈ X, k.isLeaf = true := fun k hk => hleaf k (hX.mem_iff.1 hk)
+  have : as = X.map varAst := by
+    have h2 := toAstL_leafs_cfg true X hXl
+    rw [has] at h2; exact Option.some.inj h2
+  subst this
+  refine ⟨_, ha, ?_, rfl⟩
+  simp only [Ast.build]
+  exact mkCcAny_congr args _ (d :: ds) oid (by rw [buildL_vars X hXl]; exact hX) hn hfresh
+
+/-- **exact round trip of a defaulted `cc.Xor` over items** -/
+theorem ccXor_items_exact (args : List (Bool × P)) (d : String × Bnd) (ds : List (String × Bnd)) (oid)
+    (hleaf : ∀ k ∈ args.map (·.2), k.isLeaf = true) (hn : ((args.map (·.2)).map (·.id)).Nodup) :
+    ∃ a, PJ.toAst true (toJson (mkCcXor args (d :: ds) oid)) = some a ∧ a.build = mkCcXor args (d :: ds) oid ∧
+      a.isStr = false := by
+  obtain ⟨a, ha, _, _, as, rfl, has⟩ := ccXor_roundtrip_gen args d ds oid (fun k hk => rtn_leaf k (hleaf k hk))
+  have hK : (sortById (orderArgs args)).Perm (args.map (·.2)) := (sortById_perm _).trans (C04.orderArgs_perm args)
+  have hXl : ∀ k ∈ sortById (orderArgs args), k.isLeaf = true := fun k hk => hleaf k (hK.mem_iff.1 hk)
+  have : as = (sortById (orderArgs args)).map varAst := by
+    have h2 := toAstL_leafs_cfg true _ hXl
+    rw [has] at h2; exact Option.some.inj h2
+  subst this
+  refine ⟨_, ha, ?_, rfl⟩
+  simp only [Ast.build]
+  exact mkCcXor_congr args _ (d :: ds) oid (by rw [buildL_vars _ hXl]; exact hK) hn
+
+/-- a rule that comes back as itself -/
+def RTX (r : P) : Prop := ∃ a, PJ.toAst true (toJson r) = some a ∧ a.build = r ∧ a.isStr = false
+
+theorem rtx_list : ∀ ks : List P, (∀ k ∈ ks, RTX k) →
+    ∃ as, PJ.toAstL true (toJsonL ks) = some as ∧ Ast.buildL as = ks.map (fun k => (false, k))
+  | [], _ => ⟨[], by simp [toJsonL, PJ.toAstL], by simp [Ast.buildL]⟩
+  | k :: ks, h => by
+      obtain ⟨a, ha, hb, hs⟩ := h k (by simp)
+      obtain ⟨as, has, hbs⟩ := rtx_list ks (fun x hx => h x (by simp [hx]))
+      exact ⟨a :: as, by simp [toJsonL, PJ.toAstL, ha, has], by simp [Ast.buildL, hb, hs, hbs]⟩
+
+theorem distinctCount_nodup : ∀ l : List P, (l.map (·.id)).Nodup → distinctCount (l.map (fun k => ((false : Bool), k))) = l.length
+  | [], _ => rfl
+  | x :: r, hn => by
+      have ⟨hx, hr⟩ := List.nodup_cons.1 hn
+      have ih := distinctCount_nodup r hr
+      have hany : (r.map (fun k => ((false : Bool), k))).any (fun y => (false == y.1) && beq x y.2) = false := by
+        rw [List.any_eq_false]
+        intro y hy
+        obtain ⟨k, hk, rfl⟩ := List.mem_map.1 hy
+        intro hb
+        simp only [Bool.and_eq_true] at hb
+        have := (C10.beq_id_kids x k hb.2).1
+        exact hx (List.mem_map.2 ⟨k, hk, this.symm⟩)
+      simp only [List.map_cons, distinctCount, hany, ih, List.length_cons]
+      simp; omega
+
+/-- **exact round trip of a configurator whose rules come back as themselves** (rule ids pairwise distinct) -/
+theorem stingy_exact (rules : List P) (i : String) (hx : ∀ r ∈ rules, RTX r) (hn : (rules.map (·.id)).Nodup) :
+    ∃ a, PJ.toAst true (toJson (Config.mkStingy rules i)) = some a ∧ a.build = Config.mkStingy rules i := by
+  have hK : (sortById rules).Perm rules := sortById_perm rules
+  obtain ⟨as, has, hbs⟩ := rtx_list (sortById rules) (fun k hk => hx k (hK.mem_iff.1 hk))
+  have hj : toJson (Config.mkStingy rules i) =
+      .node (some "StingyConfigurator") (some i) none none true (toJsonL (sortById rules)) none none none [] := by
+    simp [Config.mkStingy, mkAll, mkAtLeast, varOf, C18.orderArgs_nonstr, toJson, idJ]
+  refine ⟨.stingy as (some i), by rw [hj]; simp [PJ.toAst, has], ?_⟩
+  simp only [Ast.build, hbs]
+  have hd1 := distinctCount_nodup rules hn
+  have hd2 := distinctCount_nodup (sortById rules) ((hK.map _).nodup_iff.2 hn)
+  simp only [Config.mkStingy, mkAll, hd1, hd2, C18.orderArgs_nonstr, hK.length_eq]
+  exact mkAtLeast_congr _ _ _ _ _ _ (C18.sortById_idem rules)
+
+/-- a defaulted choice over items: `cc.Any(*items, default=…)` or `cc.Xor(*items, default=…)`, item ids pairwise distinct,
+    the helper's generated id no item's id -/
+def ItemChoice (r : P) : Prop :=
+  ∃ args d ds oid, (∀ k ∈ args.map (·.2), k.isLeaf = true) ∧ ((args.map (·.2)).map (·.id)).Nodup ∧
+    ((r = mkCcAny args (d :: ds) oid ∧
+        ∀ d1, ∀ k ∈ args.map (·.2), k.id ≠ (mkAny (args.filter (fun x => !(x.2.isLeaf && x.2.id == d1))) none).id) ∨
+     r = mkCcXor args (d :: ds) oid)
+
+theorem itemChoice_rtx (r : P) (h : ItemChoice r) : RTX r := by
+  obtain ⟨args, d, ds, oid, hleaf, hn, ⟨rfl, hfresh⟩ | rfl⟩ := h
+  · exact ccAny_items_exact args d ds oid hleaf hn hfresh
+  · exact ccXor_items_exact args d ds oid hleaf hn
+
+/-- **the everyday configurator round-trips exactly**: `StingyConfigurator(*rules, id=i)` over defaulted choices over items
+    (rule ids pairwise distinct) is read back as the very same model — hence with the same default priorities, the same
+    polyhedron (`encode`), the same columns, and the same answer to every query -/
+theorem items_configurator_exact (rules : List P) (i : String) (h : ∀ r ∈ rules, ItemChoice r)
+    (hn : (rules.map (·.id)).Nodup) :
+    ∃ a, PJ.toAst true (toJson (Config.mkStingy rules i)) = some a ∧ a.build = Config.mkStingy rules i ∧
+      Lex.defaultPrios a.build = Lex.defaultPrios (Config.mkStingy rules i) ∧
+      (∀ act, P.encode act a.build = P.encode act (Config.mkStingy rules i)) ∧
+      Solve.columns a.build = Solve.columns (Config.mkStingy rules i) ∧
+      toJson a.build = toJson (Config.mkStingy rules i) := by
+  obtain ⟨a, ha, hb⟩ := stingy_exact rules i (fun r hr => itemChoice_rtx r (h r hr)) hn
+  exact ⟨a, ha, hb, by rw [hb], fun _ => by rw [hb], by rw [hb], by rw [hb]⟩
+
+/-- non-vacuity of `items_configurator_exact`'s premises: `cc.Xor(x, y, default=x, id="X")` is an `ItemChoice` -/
+example : ItemChoice (mkCcXor [(true, .leaf "x" ⟨0, 1⟩), (true, .leaf "y" ⟨0, 1⟩)] [("x", ⟨0, 1⟩)] (some "X")) :=
+  ⟨_, _, _, _, by simp [isLeaf], by simp [P.id], Or.inr rfl⟩
+
+/-- … and `cc.Any(a, b, c, default=a, id="A")` is one too: a generated id starts with "VAR" and is longer than an item's name -/
+example : ItemChoice (mkCcAny [(true, .leaf "a" ⟨0, 1⟩), (true, .leaf "b" ⟨0, 1⟩), (true, .leaf "c" ⟨0, 1⟩)] [("a", ⟨0, 1⟩)] (some "A")) := by
+  refine ⟨_, _, _, _, by simp [isLeaf], by simp [P.id], Or.inl ⟨rfl, ?_⟩⟩
+  intro d1 k hk h
+  have hl : k.id.length = 1 := by
+    simp only [List.map_cons, List.map_nil, List.mem_cons, List.not_mem_nil, or_false] at hk
+    rcases hk with rfl | rfl | rfl <;> rfl
+  rw [h] at hl
+  simp only [mkAny, mkAtLeast, varOf, Option.map_none, genId, P.id, String.length_append] at hl
+  have : "VAR".length = 3 := rfl
+  omega
 
 theorem mkCcAny_isLeaf (args : List (Bool × P)) (dflt oid) : (mkCcAny args dflt oid).isLeaf = false := by
   obtain ⟨i, b, ks, m, hn⟩ := mkCcAny_node args dflt oid
